@@ -110,6 +110,43 @@ impl<const FW: u16, const FH: u16, C: HColor> Model for Ext<FW, FH, C> {
     }
 }
 
+/// External model for a glass with a BGR colour filter: its init programs - and returns - an
+/// address mode whose colour-order bit is the inverse of the option (the `Model` contract lets
+/// init return "the value of MADCTL set by init")
+pub struct ExtInvertedBgr;
+
+impl Model for ExtInvertedBgr {
+    type ColorFormat = Rgb565;
+    const FRAMEBUFFER_SIZE: (u16, u16) = (48, 32);
+
+    fn init<DELAY, DI>(
+        &mut self,
+        di: &mut DI,
+        delay: &mut DELAY,
+        options: &ModelOptions,
+    ) -> Result<SetAddressMode, ModelInitError<DI::Error>>
+    where
+        DELAY: DelayNs,
+        DI: Interface,
+    {
+        use mipidsi::options::ColorOrder;
+        let flipped = match options.color_order {
+            ColorOrder::Rgb => ColorOrder::Bgr,
+            ColorOrder::Bgr => ColorOrder::Rgb,
+        };
+        let madctl = SetAddressMode::from(options).with_color_order(flipped);
+        delay.delay_us(120_000);
+        di.write_command(ExitSleepMode)?;
+        delay.delay_us(120_000);
+        di.write_command(madctl)?;
+        di.write_command(SetInvertMode::new(options.invert_colors))?;
+        let pf = PixelFormat::with_all(BitsPerPixel::from_rgb_color::<Rgb565>());
+        di.write_command(SetPixelFormat::new(pf))?;
+        di.write_command(SetDisplayOn)?;
+        Ok(madctl)
+    }
+}
+
 macro_rules! model_menu {
     ( $( $id:ident : $ty:ty = $ctor:expr, $name:expr, ($fw:expr, $fh:expr), $bits:expr, builtin=$bi:expr ; )* ) => {
         #[derive(Clone, Copy, Debug, PartialEq, Eq, Hash, PartialOrd, Ord)]
@@ -160,6 +197,7 @@ model_menu! {
     ST7789: mm::ST7789 = mm::ST7789, "ST7789", (240, 320), 16, builtin=true;
     ST7796: mm::ST7796 = mm::ST7796, "ST7796", (320, 480), 16, builtin=true;
     ExtST7789: ExternalST7789 = ExternalST7789, "ExtST7789", (240, 320), 16, builtin=false;
+    EInvBgr: ExtInvertedBgr = ExtInvertedBgr, "ExtInvertedBgr48x32", (48, 32), 16, builtin=false;
     E1x1: Ext<1, 1, Rgb565> = Ext::default(), "Ext1x1", (1, 1), 16, builtin=false;
     E2x3: Ext<2, 3, Rgb666> = Ext::default(), "Ext2x3", (2, 3), 18, builtin=false;
     E7x5: Ext<7, 5, Rgb565> = Ext::default(), "Ext7x5", (7, 5), 16, builtin=false;
@@ -191,6 +229,7 @@ pub fn dispatch_model565<V: Model565Visitor>(id: ModelId, v: V) -> Option<V::Out
         ModelId::ST7789 => v.visit(id, mm::ST7789),
         ModelId::ST7796 => v.visit(id, mm::ST7796),
         ModelId::ExtST7789 => v.visit(id, ExternalST7789),
+        ModelId::EInvBgr => v.visit(id, ExtInvertedBgr),
         ModelId::E1x1 => v.visit(id, Ext::<1, 1, Rgb565>::default()),
         ModelId::E7x5 => v.visit(id, Ext::<7, 5, Rgb565>::default()),
         ModelId::EWide => v.visit(id, Ext::<65535, 1, Rgb565>::default()),
